@@ -336,6 +336,66 @@ fn emit(out: &mut Vec<String>, f: &str, xs: &[String], params: &[(&str, String)]
     out.push(l);
 }
 
+/// C08: every null-aware mapping on every series over {null,-2,0,3} of length 0..=maxlen under each
+/// null-capable element encoding the mapping accepts (NaN in f64, None in Option<f64> / Option<i32>):
+/// the same logical series and parameters, one model result
+pub fn encoding_cells(maxlen: usize) -> Vec<String> {
+    let alpha: &[&str] = &["_", "-2", "0", "3"];
+    let mut out = vec![];
+    let encs = |f: &str| -> &'static [&'static str] {
+        match f {
+            "vpct_change" => &["f64", "of64"],
+            "vdiff" => &["f64"],
+            _ => &["f64", "of64", "oi32"],
+        }
+    };
+    let mut push = |f: &str, xs: &[String], params: &[(&str, String)]| {
+        for (j, t) in encs(f).iter().enumerate() {
+            let mut l = format!("{} t={}", f, t);
+            if VIEW_FNS.contains(&f) {
+                l.push_str(&format!(" b={}", BACKENDS[j % BACKENDS.len()]));
+            }
+            for (key, v) in params {
+                l.push_str(&format!(" {}={}", key, v));
+            }
+            l.push_str(&format!(" xs={}", join(xs)));
+            out.push(l);
+        }
+    };
+    for len in 0..=maxlen {
+        for xs in all_series(alpha, len) {
+            let l = len as i64;
+            for n in [-l - 1, -l, -1, 0, 1, 2, l, l + 1] {
+                for v in ["-", "_", "7"] {
+                    push("vshift", &xs, &[("lag", n.to_string()), ("v", v.into())]);
+                    push("vdiff", &xs, &[("lag", n.to_string()), ("v", v.into())]);
+                }
+                push("shift", &xs, &[("lag", n.to_string()), ("v", "_".into())]);
+                push("vpct_change", &xs, &[("lag", n.to_string())]);
+            }
+            for v in ["-", "_", "7"] {
+                push("ffill", &xs, &[("v", v.into())]);
+                push("bfill", &xs, &[("v", v.into())]);
+            }
+            for v in ["_", "7"] {
+                push("fill", &xs, &[("v", v.into())]);
+            }
+            for m in MASKS {
+                push("ffill_mask", &xs, &[("m", m.to_string()), ("v", "-".into())]);
+                push("bfill_mask", &xs, &[("m", m.to_string()), ("v", "7".into())]);
+                push("fill_mask", &xs, &[("m", m.to_string()), ("v", "_".into())]);
+            }
+            for lo in ["_", "-3", "-1", "3"] {
+                for hi in ["_", "-2", "0", "4"] {
+                    push("vclip", &xs, &[("lo", lo.into()), ("hi", hi.into())]);
+                }
+            }
+            push("vabs", &xs, &[]);
+        }
+    }
+    out
+}
+
 pub fn generate(tier: &str, rng: &mut Rng) -> (Vec<String>, bool) {
     let thorough = tier == "thorough";
     let alpha: &[&str] = &["_", "-2", "0", "3"];
@@ -471,6 +531,27 @@ pub fn generate(tier: &str, rng: &mut Rng) -> (Vec<String>, bool) {
     out.retain(|l| valid_case(&Req::parse(l)));
     // the same requests at tiny scales (2^-40 .. 2^-60): non-zero values far below any epsilon
     crate::cases::add_scaled(&mut out, 7, &[40, 50, 60], &["xs"]);
+    // … and in the subnormal range (2^-1060): a base that is neither null nor zero nor normal
+    let n = out.len();
+    let mut seen = 0usize;
+    for i in 0..n {
+        let mut r = Req::parse(&out[i]);
+        let every = if r.f == "vpct_change" { 5 } else { 23 };
+        seen += 1;
+        if seen % every != 0 {
+            continue;
+        }
+        if !LAG_FNS.contains(&r.f.as_str()) || !matches!(r.s("t"), "f64" | "of64") || !r.has("xs") || (r.has("v") && !matches!(r.s("v"), "-" | "_")) {
+            continue;
+        }
+        let xs = r.list("xs");
+        if xs.iter().any(|t| t.contains('/') && !t.split_once('/').map(|(_, q)| q.parse::<u32>().map(|q| q.is_power_of_two()).unwrap_or(false)).unwrap_or(false)) {
+            continue;
+        }
+        let v = crate::cases::scale_down_big(&xs, 1060);
+        r.set("xs", join(&v));
+        out.push(r.line());
+    }
     (out, true)
 }
 
@@ -478,7 +559,7 @@ pub fn rule(tier: &str) -> String {
     let thorough = tier == "thorough";
     let (len_lag, len_plain) = if thorough { (6, 6) } else { (4, 5) };
     format!(
-        "exhaustive: every series over {{null,-2,0,3}} of length 0..={len_lag} x (shift, vshift, vdiff, vpct_change) x every lag n in -len-3..=len+3 and i32::MIN, i32::MAX x fill in {{omitted, null, 7}} (shift: {{null, 7}}); the same series x (ffill_mask, bfill_mask, fill_mask) x 6 mask predicates x fill values; x vclip with lower, upper in {{null,-3,-2,-1,0,3,4}}^2 (every order relation to the data and to each other, null bounds); every series of length 0..={len_plain} x ffill, bfill, fill, abs, vabs; element type rotated over f64 / Option<f64> / i32 / Option<i32> (plain i32 only where no null occurs), input backend of the view-based vdiff / vpct_change rotated over 14 backends (Vec, [T;N], Arc<Vec>, VecDeque at head offsets 0/1/3, Arc<VecDeque>, Array1, ArrayViewMut1, ArrayView1 with step 1,2,3,-1,-2; a bare [T] cannot call them) and, for every series of length <= 2, all 14 backends x all lags. random: {} cases, length <= {}, values k/8 with |k| <= 64 or integers, 9 null patterns, lags incl. 0, +-len and the i32 extremes. Iterators are drained with plain next() capped at len+8 items. non-trivial = len >= 2 and a non-null output.",
+        "exhaustive: every series over {{null,-2,0,3}} of length 0..={len_lag} x (shift, vshift, vdiff, vpct_change) x every lag n in -len-3..=len+3 and i32::MIN, i32::MAX x fill in {{omitted, null, 7}} (shift: {{null, 7}}); the same series x (ffill_mask, bfill_mask, fill_mask) x 6 mask predicates x fill values; x vclip with lower, upper in {{null,-3,-2,-1,0,3,4}}^2 (every order relation to the data and to each other, null bounds); every series of length 0..={len_plain} x ffill, bfill, fill, abs, vabs; element type rotated over f64 / Option<f64> / i32 / Option<i32> (plain i32 only where no null occurs), input backend of the view-based vdiff / vpct_change rotated over 14 backends (Vec, [T;N], Arc<Vec>, VecDeque at head offsets 0/1/3, Arc<VecDeque>, Array1, ArrayViewMut1, ArrayView1 with step 1,2,3,-1,-2; a bare [T] cannot call them) and, for every series of length <= 2, all 14 backends x all lags. random: {} cases, length <= {}, values k/8 with |k| <= 64 or integers, 9 null patterns, lags incl. 0, +-len and the i32 extremes; every 7th request repeated at scales 2^-40..2^-60 and every 23rd lagged one (every 5th vpct_change; float types) in the subnormal range (2^-1060). Iterators are drained with plain next() capped at len+8 items. non-trivial = len >= 2 and a non-null output.",
         if thorough { 40000 } else { 6000 },
         if thorough { 100 } else { 40 }
     )
